@@ -55,6 +55,8 @@ KIND = {
     'xlraise': F.binop('+', N('1'), F.call('XLR')),
     'trapped': F.call('IFERROR', F.call('SUM', F.binop('/', N('1'), N('0'))), F.var('va')),
     'empty': {'raw': ''},
+    # a sheet whose cells hold formulas: the cell listener evaluates another formula on the same parser, for every cell
+    'sheet': F.binop('*', F.call('SUM', F.cell('A1'), F.binop('+', F.cell('$A$1'), F.cell('a1'))), N('2')),
 }
 PROBES = [KIND['ok'], KIND['okcells'], KIND['cellexc'], KIND['rangeexc'], KIND['fnlistenerexc'], KIND['trapped'], KIND['divzero'], KIND['unknownvar'], KIND['syntax'],
           F.binop('&', F.var('vb'), F.call('K')), F.call('SUM', F.var('vl'), F.cell('B2')), KIND['xlraise']]
@@ -159,10 +161,20 @@ def replay_history(lib, tid, kinds, debug):
             for f in (KIND['ok'], KIND['okcells'], PROBES[-3]):    # use the rebound name straight away
                 L.parse(f)
             continue
+        if k == 'sheet':
+            def nested(hh, payload):
+                saved, hh.hooks = hh.hooks, {}
+                try:
+                    hh.parse(F.render(KIND['okcells']))
+                    hh.parse('1+*2')
+                finally:
+                    hh.hooks = saved
+            L.h.hooks = {'cell': nested, 'cell:post': nested}
         extra = TRANSIENT.get(k, [])
         if extra:      # a listener that fails this time only: the host's binding changes, then changes back
             L.set_raises(BASE_RAISES + extra)
         L.parse(KIND[k], None if rebound else solo_outcome(lib, KIND[k], not debug, extra))
+        L.h.hooks = {}
         if extra:
             L.set_raises(BASE_RAISES)
     for f in PROBES:
@@ -217,6 +229,10 @@ def host_obs(lib, names, rng, quick):
                     one('%s(%s,%s)' % (name, ref(mode, 1), json.dumps(s)), [HOSTLISTS[hi]], mode)
                     one('%s(%s,%s)' % (name, json.dumps(s), ref(mode, 1)), [HOSTLISTS[hi]], mode)
                 one('%s(%s,%s)' % (name, ref(mode, 1), ref(mode, 2)), [HOSTLISTS[hi], HOSTLISTS[2]], mode)
+                one('%s(%s,%s)' % (name, ref(mode, 1), ref(mode, 2)), [HOSTLISTS[hi], HOSTLISTS[3]], mode)     # all numbers
+                if hi == 0:
+                    one('%s(%s,%s,%s)' % (name, ref(mode, 1), ref(mode, 2), ref(mode, 3)), [HOSTLISTS[0], HOSTLISTS[3], HOSTLISTS[5]], mode)
+                    one('%s(%s,%s)' % (name, ref(mode, 1), ref(mode, 1)), [HOSTLISTS[hi]], mode)
                 if not quick or hi == 0:
                     one('%s(%s,%s,%s)' % (name, ref(mode, 1), ref(mode, 2), 2), [HOSTLISTS[hi], HOSTLISTS[3]], mode)
                     one('%s(%s,2,%s)' % (name, ref(mode, 1), ref(mode, 2)), [HOSTLISTS[hi], HOSTLISTS[0]], mode)
